@@ -558,12 +558,25 @@ func options(contents, budget int, full bool) {
 		pick := func(i int) combo {
 			return combo{i % len(reqs), wins[(i/len(reqs))%len(wins)], fls[i/(len(reqs)*len(wins))]}
 		}
-		idx := rng.Perm(total)
-		for _, i := range idx {
-			if n >= per {
+		// full: the whole product in a random order. Otherwise independent draws per dimension, the unbounded
+		// window four times in ten (so that every request meets every filter without a window often enough)
+		var idx []int
+		if full {
+			idx = rng.Perm(total)
+		}
+		for k := 0; ; k++ {
+			if n >= per || (full && k >= len(idx)) {
 				break
 			}
-			cb := pick(i)
+			var cb combo
+			if full {
+				cb = pick(idx[k])
+			} else {
+				cb = combo{rng.Intn(len(reqs)), wins[rng.Intn(len(wins))], fls[rng.Intn(len(fls))]}
+				if rng.Intn(10) < 4 {
+					cb.w = win{0, 0}
+				}
+			}
 			q := reqs[cb.r]
 			q.Lo, q.Hi, q.Fop, q.Ff, q.La = cb.w.lo, cb.w.hi, cb.f.fop, cb.f.ff, cb.f.la
 			base, ok := emitBase(g, gname, "C09", q)
